@@ -150,3 +150,48 @@ func SeqRemove(pre, post []Item, k int, label string) (removed bool) {
 	}
 	return false
 }
+
+// Thunk is what an unexpanded-subtree summary must offer to the navigation obligations.
+type Thunk interface {
+	// VOutside: every key of the subtree is <= a (if hasA) or >= b (if hasB); true for an empty subtree.
+	VOutside(hasA bool, a int, hasB bool, b int) bool
+}
+
+// Outside asserts that every element of the in-order sequence lies outside the interval between a and b:
+// key <= a (or < a when strictA) or key >= b (or > b when strictB). Unexpanded subtrees are judged by their
+// summaries without being expanded, so a subtree the code under test skipped must be provably irrelevant.
+func Outside(items []Item, hasA bool, a int, strictA bool, hasB bool, b int, strictB bool, label string) {
+	for _, it := range items {
+		if it.T != nil {
+			v.Assert(it.T.(Thunk).VOutside(hasA, a, hasB, b), label+"-subtree")
+			continue
+		}
+		ok := false
+		if hasA {
+			if strictA {
+				ok = v.Or(ok, Less(it.K, a))
+			} else {
+				ok = v.Or(ok, !Less(a, it.K))
+			}
+		}
+		if hasB {
+			if strictB {
+				ok = v.Or(ok, Less(b, it.K))
+			} else {
+				ok = v.Or(ok, !Less(it.K, b))
+			}
+		}
+		v.Assert(ok, label)
+	}
+}
+
+// Holds asserts that (k,x) is an element of the sequence (forced items only).
+func Holds(items []Item, k, x int, label string) {
+	ok := false
+	for _, it := range items {
+		if it.T == nil {
+			ok = v.Or(ok, v.And(it.K == k, it.V == x))
+		}
+	}
+	v.Assert(ok, label)
+}
